@@ -77,6 +77,7 @@ func c16Exec(in c16Input) (o c16Obs) {
 const c16ms = int64(time.Millisecond)
 
 func c16Check(r *vkit.Run, in c16Input) {
+	r.Begin("C16", in)
 	obs := c16Exec(in)
 	r.Eval()
 	r.Step(4)
